@@ -53,7 +53,9 @@ class C18(PropBase):
             "every spelling of the sp / ip registers; unknown names (empty, foreign-architecture names, ASCII-case variants of every own name, "
             "decorated); read cases `R arch fill len` = MinidumpContext::read for every ProcessorArchitecture number of format.rs plus unknown "
             "numbers x context_flags {every ContextFlagsCpu constant, own | low bits / XSTATE / undefined bits / a second CPU bit, 0, all-ones} "
-            "x buffer lengths around every context struct's size; non-trivial = set_register accepted the name / read produced a context; "
+            "x buffer lengths around every context struct's size; write sequences `W type n1=v1,...` = every name once (both orders), "
+            "alias / canonical / alias triples for every alias, random sequences of 2-14 calls incl. refused names, on the pattern and on "
+            "filled contexts; non-trivial = set_register accepted the name / read produced a context; "
             "distinct = distinct case lines")
     trusted_base = [
         "Coq 8.16.1 kernel; vm_compute evaluates the finite checker over the generated tables (Proofs.tables_diagnosis_empty) and the Examples",
@@ -276,6 +278,37 @@ class C18(PropBase):
             for fw in fills[:6]:
                 cases.append("%s %s A %d - %d" % (variant, UNKNOWN[1], 1, fw))
             dist["fill_cases"] = dist.get("fill_cases", 0) + nf + 6
+            # ---- sequences of set_register calls (`W <variant> n1=v1,n2=v2,... [fill]`): last write through any spelling wins,
+            #      refused names change nothing
+            def wv(avoid=None):
+                while True:
+                    x = rnd()
+                    if x != avoid:
+                        return x
+            seqs = [[(n, wv()) for n in names], [(n, wv()) for n in reversed(names)]]
+            for a, cn in al.items():
+                seqs.append([(a, wv()), (cn, wv()), (a, wv())])
+                seqs.append([(cn, wv()), (a, wv())])
+            for q in range(40 if tier == "quick" else 400):
+                ln = 2 + rng.below(13)
+                sq = []
+                for _ in range(ln):
+                    r = rng.below(10)
+                    if r == 0:
+                        n = rng.choice(UNKNOWN[1:] + [names[0].upper(), "$" + t["sp_name"], t["ip_name"] + "~"])
+                    elif r == 1:
+                        n = rng.choice(special)
+                    else:
+                        n = rng.choice(names)
+                    sq.append((n, wv()))
+                seqs.append(sq)
+            for qi, sq in enumerate(seqs):
+                fw = [None, None, 0, M32, 0x21][qi % 5]
+                if fw is not None:
+                    rep = fw if w == 32 else (fw << 32) | fw
+                    sq = [(n, v if v != rep else v ^ 2) for n, v in sq]
+                cases.append("W %s %s%s" % (variant, ",".join("%s=%d" % nv for nv in sq), "" if fw is None else " %d" % fw))
+            dist["write_sequences"] = dist.get("write_sequences", 0) + len(seqs)
             dist["by_type"][variant] = len(cases) - n0
         # ---- MinidumpContext::read: which context type is chosen (`R <arch> <fill> <len>`; every 32-bit word of the buffer is
         #      the fill word, so the context_flags of whichever type the architecture selects is the word)
@@ -303,7 +336,7 @@ class C18(PropBase):
         out = []
         for c in cases:
             f = c.split(" ")
-            if f[0] == "R":
+            if f[0] in ("R", "W"):
                 out.append(c)
                 continue
             if f[2].startswith("S:") and f[2] != "S:":
@@ -353,9 +386,42 @@ class C18(PropBase):
             return "%s: get_instruction_pointer() = %s on a context whose every word is %#x" % (who, d["rip"], fill)
         return None
 
+    def _oracle_writes(self, case, ans):
+        f = case.split(" ")
+        variant = f[1]
+        if ans.startswith("P;;"):
+            return "%s: a sequence of set_register calls panicked: %s" % (variant, ans[3:200])
+        d = parse(ans)
+        if any(k not in d for k in ("wa", "ch", "sp", "ip")):
+            return "unparseable answer " + ans[:120]
+        t = names_table()[variant]
+        known, al = set(t["names"]), t["aliases"]
+        ops = [(("" if n == "-" else n.replace("~", " ")), v) for n, v in (p.split("=") for p in f[2].split(","))]
+        want_wa = "".join("1" if n in known else "0" for n, _ in ops)
+        if d["wa"] != want_wa:
+            return "%s: set_register accepted / refused the calls as %s, the names' status is %s | %s" % (variant, d["wa"], want_wa, f[2][:120])
+        last = {}
+        for n, v in ops:
+            if n in known:
+                last[al.get(n, n)] = v
+        want_ch = ",".join("%s:%s" % (r, last[r]) for r in t["registers"] if r in last)
+        if d["ch"] != want_ch:
+            return ("%s: after the sequence the registers that changed are [%s]; the last writes through each register's spellings are [%s]"
+                    % (variant, d["ch"][:300], want_ch[:300]))
+        for tag, nm in (("sp", t["sp_name"]), ("ip", t["ip_name"])):
+            want = last.get(al.get(nm, nm), "B")
+            if d[tag] != want:
+                return "%s: after the sequence the dedicated %s accessor reads %s, the last write through a spelling of %s is %s" % (
+                    variant, tag, d[tag], nm, want)
+        if set(last) - set(t["registers"]):
+            return "%s: canonical names %s are not in REGISTERS" % (variant, sorted(set(last) - set(t["registers"])))
+        return None
+
     def oracle(self, case, ans, profile):
         if case.startswith("R "):
             return self._oracle_read(case, ans)
+        if case.startswith("W "):
+            return self._oracle_writes(case, ans)
         variant, name, vspec, value = case.split(" ")[:4]
         if ans.startswith("P;;"):
             return "%s: a method panicked outside the guarded reads: %s" % (variant, ans[3:200])
@@ -465,7 +531,7 @@ class C18(PropBase):
         return None
 
     def nontrivial(self, case, ans):
-        return ";st=1;" in ans or (ans.startswith("rd=") and not ans.startswith(("rd=RF", "rd=UC")))
+        return ";st=1;" in ans or (ans.startswith("rd=") and not ans.startswith(("rd=RF", "rd=UC"))) or (ans.startswith("wa=") and "1" in ans.split(";")[0])
 
 
 PROP = C18()
